@@ -63,6 +63,14 @@ Theorem C08_hop_exact : forall f u lo cs, big_unit u -> unit_of f <= u -> 0 <= l
 Proof. exact hop_exact. Qed.
 Print Assumptions C08_hop_exact.
 
+(* without SAMI the cues may be shorter than the unit (down to length 0): they floor to zero-length cues
+   that are kept, as long as neighbours start in different units *)
+Theorem C08_hop_exact_short_cues : forall f u lo cs, big_unit u -> is_sami f = false -> unit_of f <= u -> 0 <= lo ->
+  dom_s u lo cs ->
+  hop f cs = Ok (pi f cs) /\ dom_s u (fl (unit_of f) lo) (pi f cs).
+Proof. exact hop_exact_s. Qed.
+Print Assumptions C08_hop_exact_short_cues.
+
 (* a whole chain of model hops is the closed form, for every chain and every caption list of the domain *)
 Theorem C08_chain_model_exact : forall chain cs, chain_dom chain cs = true ->
   run_model chain cs = Ok (expected chain cs).
@@ -78,6 +86,12 @@ Theorem C08_chain_model_meets_oracle : forall chain cs, chain_dom chain cs = tru
   ok_chain chain cs (run_model chain cs) (do o1 <- run_model chain cs; Ok (run chain o1)) = true.
 Proof. exact run_model_meets_oracle. Qed.
 Print Assumptions C08_chain_model_meets_oracle.
+
+(* several languages through DFXP / SAMI: every language keeps its name and place and gets its own closed form *)
+Theorem C08_chain_model_set_exact : forall chain cs, set_dom chain cs = true ->
+  run_model_set chain cs = Ok (expected_set chain cs).
+Proof. exact run_model_set_exact. Qed.
+Print Assumptions C08_chain_model_set_exact.
 
 (* string level, MicroDVD: the document printed by the writer model (frames, text lines joined by '|', the
    strip / replace clean-up loops), read back by the reader model: both frames floored, text lines unchanged *)
@@ -115,4 +129,9 @@ Example C08_ex_mdvd_string :
   mdvd_write [(8039999, 8120001, [Str.lit "hello"; Str.lit "a b"])] = Str.lit "{200}{203}hello|a b
 " /\ mdvd_read (mdvd_write [(8039999, 8120001, [Str.lit "hello"; Str.lit "a b"])])
      = Ok [(8000000, 8120000, [Str.lit "hello"; Str.lit "a b"])].
+Proof. vm_compute. split; reflexivity. Qed.
+(* a cue inside one MicroDVD frame (not frame 0) keeps its place: {100}{100} *)
+Example C08_ex_subframe_cue :
+  chain_dom [FSrt; FMdvd; FDfxp] [(4000000, 4030000); (6000000, 8000000)] = true /\
+  run_model [FSrt; FMdvd; FDfxp] [(4000000, 4030000); (6000000, 8000000)] = Ok [(4000000, 4000000); (6000000, 8000000)].
 Proof. vm_compute. split; reflexivity. Qed.
